@@ -247,6 +247,8 @@ func (m *model) apply(s step) {
 		if m.rtUsable(s.RT) {
 			c.ok = true
 			delete(m.codeGone, [2]int{m.engineOf(s.RT), s.Spec})
+		} else if !m.rtClosed[s.RT] {
+			m.labels["compile-on-open-runtime-after-its-cache-was-closed"] = true
 		}
 	case "inst":
 		if s.CM < len(m.cms) && m.cms[s.CM].ok && !m.cms[s.CM].closed {
@@ -837,6 +839,15 @@ func genStep(t *rapid.T, m *model, excluded *int) (s step, ok bool) {
 		}
 	}
 	add("compile", map[bool]int{true: 8, false: 1}[len(m.cms) < 2], len(rts) > 0 && len(m.cms) < 7)
+	// compiling on a still open runtime whose shared cache was closed: the result is of no use
+	// (the model treats it as unknown), but live instances must not suffer from it
+	var orphanRTs []int
+	for _, rt := range openRT {
+		if m.cfg.Cache && m.cacheClosed {
+			orphanRTs = append(orphanRTs, rt)
+		}
+	}
+	add("compile-after-cache-close", 3, len(orphanRTs) > 0 && len(liveI) > 0 && len(m.cms) < 9)
 	add("inst", map[bool]int{true: 12, false: 2}[len(liveI) < 3], len(instOpts) > 0)
 	add("inst-gone", 1, len(goneOpts) > 0)
 	add("instbytes", 1, len(bytesOpts) > 0)
@@ -866,6 +877,10 @@ func genStep(t *rapid.T, m *model, excluded *int) (s step, ok bool) {
 	switch op {
 	case "compile":
 		s.RT = pick(rts, "rt")
+		s.Spec = rapid.IntRange(0, len(m.specs)-1).Draw(t, "spec")
+	case "compile-after-cache-close":
+		s.Op = "compile"
+		s.RT = pick(orphanRTs, "rt")
 		s.Spec = rapid.IntRange(0, len(m.specs)-1).Draw(t, "spec")
 	case "inst":
 		o := weighted(t, "inst", instOpts, instWeight)
